@@ -43,6 +43,8 @@ class SemAdapter:
         self.clear_thread = None
         self.clr = 'idle'
         self.prechecked = False
+        self.rel = 'idle'
+        self.rel_thread = None
 
     # -- helpers -----------------------------------------------------------
     def _alive(self):
@@ -92,6 +94,39 @@ class SemAdapter:
             t.start()
         elif n == 'Clear':
             s.clear()
+        elif n == 'ReleaseArrive':
+            # a second thread calls release(); it is parked where it asks for the lock
+            g = _GatedCond(self.real_cond)
+            s._cond = g
+            t = threading.Thread(target=s.release, daemon=True)
+            g.gated_thread = t
+            self.rel_thread = t
+            t.start()
+            t0 = time.time()
+            while not g.at_gate.is_set():
+                if not t.is_alive():
+                    break                 # returned without ever asking for the lock
+                if time.time() - t0 > SETTLE_S:
+                    raise RuntimeError('release() thread neither parked nor finished')
+                time.sleep(0.0005)
+            self.rel = 'parked'
+            return None
+        elif n == 'ReleaseDo':
+            g = s._cond
+            t = self.rel_thread
+            if t is None:
+                raise RuntimeError('no release() call in progress')
+            if isinstance(g, _GatedCond):
+                g.at_gate.clear()
+                g.open.set()
+            t.join(SETTLE_S)
+            if t.is_alive():
+                raise RuntimeError('parked release() did not finish')
+            s._cond = self.real_cond
+            self.rel_thread = None
+            self.rel = 'idle'
+            self._settle()
+            return None
         elif n == 'ClearCheck':
             if self.clear_thread is None:
                 g = _GatedCond(self.real_cond)
@@ -132,7 +167,7 @@ class SemAdapter:
 
     def project(self):
         return {'value': self.s._value, 'bound': self.s._initial_value,
-                'pend': self._alive(), 'clr': self.clr}
+                'pend': self._alive(), 'clr': self.clr, 'rel': self.rel}
 
     def quiesce(self):
         return iter(())
